@@ -19,6 +19,7 @@ Scene item formats (lists, so that a case survives JSON):
 from __future__ import annotations
 
 import random
+import re
 from typing import Any, Dict, List, Optional, Tuple
 
 from vf.gen.pdfw import Doc, N, Stream, font_widths
@@ -386,6 +387,13 @@ def gen_scene(rng: random.Random, n: int, la_family: str, dense_cap: int = 100, 
         items.insert(rng.randint(0, len(items)), s)
     for k in in_fig:
         items.insert(rng.randint(0, len(items)), gen_figure(rng, bbox, k, 1, fams))
+    if rng.random() < 0.15:     # a figure without any child (a form that painted nothing): the analysis must keep it
+        for _ in range(rng.choice([1, 1, 2])):
+            empty = ["f", [q(rng, 0, 100), q(rng, 0, 100), rng.choice([0, 10, 200]), rng.choice([0, 10, 200])], [1, 0, 0, 1, 0, 0], []]
+            if rng.random() < 0.3:
+                empty = ["f", [0, 0, 50, 50], [1, 0, 0, 1, 0, 0], [empty]]
+            items.insert(rng.randint(0, len(items)), empty)
+        fams["empty_figure"] = fams.get("empty_figure", 0) + 1
     return {"bbox": bbox, "rotate": rng.choice([0, 0, 0, 90]), "items": items, "la": la if la is not None else gen_la(rng, la_family),
             "la_family": la_family, "blocks": fams}
 
@@ -707,6 +715,29 @@ def _paths(rng: random.Random, x0: float, y0: float, w: float, h: float) -> byte
     return b" ".join(out)
 
 
+_DO = re.compile(rb"/(\w+) Do\b|\bBI /W\b")
+
+
+def figure_tree(content: bytes, xo: Dict[str, Any]) -> List[Any]:
+    """What ISO 32000-1 8.8 / 8.10 make of the Do and BI operators of a generated content stream, as a tree of
+    [name, children]: a form XObject is one figure per invocation (children: the invocations in its own content), an
+    image XObject or inline image is a figure holding the image ("image"; inline images have no name: "<inline>").
+    The generator writes "/" only in front of names and "BI /W" only for inline images, so a scan is exact."""
+    out: List[Any] = []
+    for m in _DO.finditer(content):
+        if m.group(1) is None:
+            out.append(["<inline>", "image"])
+            continue
+        name = m.group(1).decode()
+        spec = xo[name]
+        out.append([name, "image"] if spec == "image" else [name, figure_tree(spec["content"], spec["xo"])])
+    return out
+
+
+def count_empty(tree: Any) -> int:
+    return sum((1 if kids == [] else 0) + (count_empty(kids) if isinstance(kids, list) else 0) for _name, kids in tree)
+
+
 def gen_pdf(rng: random.Random) -> Dict[str, Any]:
     """-> {"pdf": bytes, "la": {...}, "features": [...]}"""
     doc = Doc()
@@ -754,18 +785,38 @@ def gen_pdf(rng: random.Random) -> Dict[str, Any]:
         if rng.random() < 0.4:
             parts.append(b"q 40 0 0 30 %s %s cm /Im1 Do Q" % (_num(q(rng, 0, 100)), _num(q(rng, 0, 100))))
             feats.add("image_in_form")
+        sub: Dict[str, Any] = {"Im1": "image"}
         if deeper:
-            xo["Fn"] = form(level + 1)
+            (xo["Fn"], sub["Fn"]) = form(level + 1)
             parts.append(b"q 1 0 0 1 %s %s cm /Fn Do Q" % (_num(q(rng, 0, 50)), _num(q(rng, 0, 50))))
             feats.add("nested_form_%d" % (level + 1))
+        if rng.random() < 0.3:
+            (xo["Fe"], sub["Fe"]) = empty_form(level)
+            parts.append(b"q 1 0 0 1 7 9 cm /Fe Do Q")
         rng.shuffle(parts)
         d = {"Type": N("XObject"), "Subtype": N("Form"), "BBox": [0, 0, rng.choice([200, 300, 50]), rng.choice([200, 300, 50])],
              "Resources": {"Font": fontres, "XObject": xo}}
         if rng.random() < 0.5:
             d["Matrix"] = rng.choice([[1, 0, 0, 1, 0, 0], [0.5, 0, 0, 0.5, 0, 0], [0, 1, -1, 0, 200, 0], [2, 0, 0, 2, -10, -10]])
-        return doc.add(Stream(d, b"\n".join(parts)))
+        content = b"\n".join(parts)
+        return doc.add(Stream(d, content)), {"content": content, "xo": sub}
+
+    def empty_form(level: int) -> Any:
+        """A form whose content paints nothing: empty, state changes only, or only the Do of another such form."""
+        feats.add("empty_form")
+        xo: Dict[str, Any] = {}
+        sub: Dict[str, Any] = {}
+        content = rng.choice([b"", b"", b"q Q", b"0.5 g 2 w 1 0 0 1 3 3 cm", b"q 1 0 0 1 5 5 cm Q", b"BT /F1 12 Tf 10 10 Td ET", b"10 10 m 20 20 l n"])
+        if level < 3 and rng.random() < 0.3:
+            (xo["Fe"], sub["Fe"]) = empty_form(level + 1)
+            content = rng.choice([b"/Fe Do", b"q /Fe Do Q /Fe Do"])
+            feats.add("empty_form_nested")
+        d = {"Type": N("XObject"), "Subtype": N("Form"), "BBox": [0, 0, rng.choice([100, 0, 50]), rng.choice([100, 50])],
+             "Resources": {"Font": fontres, "XObject": xo}}
+        return doc.add(Stream(d, content)), {"content": content, "xo": sub}
 
     pages = []
+    figtrees: List[Any] = []
     for _ in range(rng.choice([1, 1, 1, 2, 3])):
         parts = []
         xo = {"Im1": img}
@@ -784,11 +835,16 @@ def gen_pdf(rng: random.Random) -> Dict[str, Any]:
         if rng.random() < 0.2:
             parts.append(b"q 20 0 0 20 300 300 cm BI /W 1 /H 1 /CS /G /BPC 8 ID \x55 EI Q")
             feats.add("inline_image")
+        sub: Dict[str, Any] = {"Im1": "image"}
         for k in range(rng.choice([1, 1, 2]) if mode == "forms_only" else rng.choice([0, 0, 1, 1, 2])):
-            xo["Fm%d" % k] = form(1)
+            (xo["Fm%d" % k], sub["Fm%d" % k]) = form(1)
             parts.append(b"q 1 0 0 1 %s %s cm /Fm%d Do Q" % (_num(q(rng, 0, 300)), _num(q(rng, 0, 500)), k))
             feats.add("form")
+        if rng.random() < 0.4:
+            (xo["Fe"], sub["Fe"]) = empty_form(1)
+            parts.append(b"q 1 0 0 1 %s %s cm /Fe Do Q" % (_num(q(rng, 0, 300)), _num(q(rng, 0, 500))))
         rng.shuffle(parts)
+        figtrees.append(figure_tree(b"\n".join(parts), sub))
         mb = rng.choice([[0, 0, 612, 792], [0, 0, 612, 792], [0, 0, 300, 400], [-100, -100, 500, 700], [50, 50, 562, 742]])
         extra: Dict[str, Any] = {}
         if rng.random() < 0.2:
@@ -802,4 +858,5 @@ def gen_pdf(rng: random.Random) -> Dict[str, Any]:
     la = gen_la(rng, fam)
     if mode != "mixed" and rng.random() < 0.8:
         la["all_texts"] = True
-    return {"pdf": doc.build(), "la": la, "la_family": fam, "features": sorted(feats), "npages": len(pages), "mode": mode}
+    return {"pdf": doc.build(), "la": la, "la_family": fam, "features": sorted(feats), "npages": len(pages), "mode": mode,
+            "figtrees": figtrees}
